@@ -37,7 +37,8 @@ RULE = (
     "127.0.0.1..127.0.0.4. Events: callback invocations and loop exception-handler entries. "
     "Oracle: callback invocations == exactly the valid matching datagrams, each once, in "
     "order; Trap.source == the sender's (address, port); bindings == what was sent; the "
-    "TrapInfo view (origin, uptime, oid, values) is pythonic and equal; invalid datagrams are "
+    "TrapInfo view (origin, uptime, oid, values) is pythonic and equal (judged after the whole "
+    "sequence, incl. byte-identical notifications from two different sources); invalid datagrams are "
     "never delivered; later valid ones still are. A missing delivery is replayed once before "
     "it becomes a verdict. Distinct by (sequence of datagram classes, payload kinds)."
 )
@@ -157,17 +158,20 @@ def run_sequence(R, items, attempt=0):
             problems.append(("duplicate", "notifications delivered more than once: %r" % dup))
         if not missing and not dup:
             problems.append(("order", "delivered in order %r, sent %r" % (good[:8], want_ids[:8])))
-    # contents
-    by_id = {1000 + it["i"]: it for it in expect}
-    for trap in delivered:
-        rid = None
-        try:
-            rid = trap.value.request_id
-        except Exception:  # noqa: BLE001
-            continue
-        it = by_id.get(rid)
-        if it is None:
-            continue
+    # contents: pair deliveries with the datagrams sent, in order (byte-identical
+    # notifications from different sources share a request-id)
+    pairs = []
+    if good == want_ids:
+        valid_deliveries = []
+        for trap in delivered:
+            try:
+                if trap.value.request_id in valid_ids:
+                    valid_deliveries.append(trap)
+            except Exception:  # noqa: BLE001
+                pass
+        pairs = list(zip(valid_deliveries, expect))
+    for trap, it in pairs:
+        rid = trap.value.request_id
         if type(trap) is not Trap:
             problems.append(("bad-object", "callback got a %s, not a Trap" % type(trap).__name__))
             continue
@@ -242,6 +246,16 @@ def run(R):
             break
         rng = R.rng(i)
         items = [gen_item(rng, j) for j in range(rng.randint(4, 14))]
+        if rng.random() < 0.4:
+            # a byte-identical copy of a valid notification from ANOTHER source address
+            # (two devices of the same type reporting the same event): both must be
+            # delivered, each with its own origin
+            valid = [it for it in items if it["cls"] == "valid"]
+            if valid:
+                orig = rng.choice(valid)
+                others = [a for a in ("127.0.0.1", "127.0.0.2", "127.0.0.3", "127.0.0.4") if a != orig["src"]]
+                twin = dict(orig, src=rng.choice(others))
+                items.insert(rng.randint(items.index(orig) + 1, len(items)), twin)
         if not any(it["cls"] == "valid" for it in items):
             items[-1] = gen_item(R.rng(i, "v"), len(items) - 1)
             while items[-1]["cls"] != "valid":
